@@ -124,7 +124,10 @@ func Convert(graph gdbi.GraphInterface, dataType gdbi.DataType, markTypes map[st
 				//log.Infof("Loading output vertex: %s", ve.ID)
 				//TODO: doing single vertex queries is slow.
 				// Need to rework this to do batched queries
-				ve = graph.GetVertex(ve.ID, true)
+				//an element that is not in the graph (any more) is returned as it is
+				if lv := graph.GetVertex(ve.ID, true); lv != nil {
+					ve = lv
+				}
 			}
 			return &gripql.QueryResult{
 				Result: &gripql.QueryResult_Vertex{
@@ -139,7 +142,9 @@ func Convert(graph gdbi.GraphInterface, dataType gdbi.DataType, markTypes map[st
 		ee := t.GetCurrent()
 		if ee != nil {
 			if !ee.Loaded {
-				ee = graph.GetEdge(ee.ID, true)
+				if le := graph.GetEdge(ee.ID, true); le != nil {
+					ee = le
+				}
 			}
 			return &gripql.QueryResult{
 				Result: &gripql.QueryResult_Edge{
@@ -162,11 +167,12 @@ func Convert(graph gdbi.GraphInterface, dataType gdbi.DataType, markTypes map[st
 		for k, v := range t.GetSelections() {
 			switch markTypes[k] {
 			case gdbi.VertexData:
-				var ve *gripql.Vertex
+				//the mark of a null traveler is an empty element: there is nothing to load for it
+				ve := v.ToVertex()
 				if !v.Loaded {
-					ve = graph.GetVertex(v.ID, true).ToVertex()
-				} else {
-					ve = v.ToVertex()
+					if lv := graph.GetVertex(v.ID, true); lv != nil {
+						ve = lv.ToVertex()
+					}
 				}
 				selections[k] = &gripql.Selection{
 					Result: &gripql.Selection_Vertex{
@@ -174,11 +180,11 @@ func Convert(graph gdbi.GraphInterface, dataType gdbi.DataType, markTypes map[st
 					},
 				}
 			case gdbi.EdgeData:
-				var ee *gripql.Edge
+				ee := v.ToEdge()
 				if !v.Loaded {
-					ee = graph.GetEdge(v.ID, true).ToEdge()
-				} else {
-					ee = v.ToEdge()
+					if le := graph.GetEdge(v.ID, true); le != nil {
+						ee = le.ToEdge()
+					}
 				}
 				selections[k] = &gripql.Selection{
 					Result: &gripql.Selection_Edge{
